@@ -59,7 +59,8 @@ type pkgCfg struct {
 	Sync     bool
 	Time     bool
 	Files    map[string]fileCfg
-	Accessor string // directory under /verif/shim whose *.go files are added to the package
+	Accessor string   // directory under /verif/shim whose *.go files are added to the package
+	MapRange []string // map operands of range statements (any file of the package) to iterate in key order
 }
 
 var profile = []pkgCfg{
@@ -83,6 +84,17 @@ var profile = []pkgCfg{
 		Dir: "backend/remote", Chan: true, Sync: true, Time: true, Accessor: "edremote",
 		Files: map[string]fileCfg{
 			"remote.go": {Min: map[string]int{"go": 1, "select": 1, "send": 1, "time": 1}},
+		},
+	},
+	{
+		// engine E-D controller-atomicity harness: the whole package runs under the scheduler
+		Dir: "controller", Chan: true, Sync: true, Time: true, Accessor: "edcontroller",
+		MapRange: []string{"c.RegisteredReplicas", "c.RegisteredQuorumReplicas", "revisionCounters", "bErr.Errors", "b.Errors",
+			"r.backends", "r.quorumBackends", "clients", "replicaChains"},
+		Files: map[string]fileCfg{
+			"control.go":         {Min: map[string]int{"go": 1, "recv": 1, "sync": 1, "time": 1, "maprange": 1}},
+			"multi_writer_at.go": {Min: map[string]int{"go": 1, "sync": 1}},
+			"replicator.go":      {Min: map[string]int{"go": 1, "sync": 1, "maprange": 1}},
 		},
 	},
 	{
@@ -271,8 +283,8 @@ func (r *rewriter) rewriteRange(c *astutil.Cursor, n *ast.RangeStmt) {
 		body := append([]ast.Stmt{recv, brk}, n.Body.List...)
 		c.Replace(&ast.ForStmt{Init: define([]ast.Expr{id(rv)}, n.X), Body: &ast.BlockStmt{List: body}})
 		r.hit("rangechan")
-	case contains(r.cfg.MapRange, x):
-		if n.Tok != token.DEFINE || !pureRef(n.X) {
+	case contains(r.cfg.MapRange, x) || contains(r.pkg.MapRange, x):
+		if (n.Tok != token.DEFINE && n.Key != nil) || !pureRef(n.X) {
 			die("%s: unsupported form of range over map %s", r.file, x)
 		}
 		kv, ok := r.tmp("k"), r.tmp("ok")
@@ -579,12 +591,26 @@ func main() {
 	repo := flag.String("repo", "/repo", "")
 	verif := flag.String("verif", "/verif", "")
 	out := flag.String("out", "/verif/build/ovl-d", "")
+	base := flag.String("base", "", "overlay.json of the default profile (tools/gen) to start from; entries of this profile override it")
 	srcRoot := flag.String("src", "", "read the package sources from this copy of the tree instead of -repo (the overlay still maps onto -repo); used to try a seeded change without touching /repo")
 	flag.Parse()
 	if *srcRoot == "" {
 		*srcRoot = *repo
 	}
 	replace := map[string]string{}
+	if *base != "" {
+		var bo struct{ Replace map[string]string }
+		b, err := os.ReadFile(*base)
+		if err != nil {
+			die("base overlay: %v", err)
+		}
+		if err := json.Unmarshal(b, &bo); err != nil {
+			die("base overlay: %v", err)
+		}
+		for k, v := range bo.Replace {
+			replace[k] = v
+		}
+	}
 	summary := map[string]map[string]int{}
 	for _, pc := range profile {
 		dir := filepath.Join(*repo, pc.Dir)
